@@ -13,6 +13,7 @@ import (
 	"math"
 	"math/rand"
 	"strings"
+	"sync"
 	"time"
 
 	"github.com/robertkrimen/otto"
@@ -276,22 +277,48 @@ func randEvent(rng *rand.Rand) *jevent {
 
 // judge draws n random events, records them and lets TLC judge them.
 func judge(c *core.Ctx, n int) (map[string]any, error) {
-	rng := rand.New(rand.NewSource(c.Seed*7919 + 12))
-	box := &jvm{}
+	// events are drawn and run by c.Workers goroutines, each with its own seeded generator and runtime
+	workers := c.Workers
+	if workers < 1 {
+		workers = 1
+	}
+	parts := make([][]*jevent, workers)
+	errs := make([]error, workers)
+	var wg sync.WaitGroup
+	for w := 0; w < workers; w++ {
+		wg.Add(1)
+		go func(w int) {
+			defer wg.Done()
+			rng := rand.New(rand.NewSource(c.Seed*7919 + 12 + int64(w)*104729))
+			box := &jvm{}
+			quota := n / workers
+			if w < n%workers {
+				quota++
+			}
+			for len(parts[w]) < quota {
+				ev := randEvent(rng)
+				out, err := box.run(ev.src, ev.consts)
+				if err != nil {
+					if strings.HasPrefix(err.Error(), "GO PANIC") {
+						c.Violate(fmt.Sprintf("%s  =>  %v", ev.src, err), map[string]any{"js": ev.src, "consts": ev.consts})
+						continue
+					}
+					errs[w] = err
+					return
+				}
+				ev.Res = json.RawMessage(out)
+				parts[w] = append(parts[w], ev)
+			}
+		}(w)
+	}
+	wg.Wait()
 	events := make([]*jevent, 0, n+1)
 	var buf bytes.Buffer
-	for len(events) < n {
-		ev := randEvent(rng)
-		out, err := box.run(ev.src, ev.consts)
-		if err != nil {
-			if strings.HasPrefix(err.Error(), "GO PANIC") {
-				c.Violate(fmt.Sprintf("%s  =>  %v", ev.src, err), map[string]any{"js": ev.src, "consts": ev.consts})
-				continue
-			}
-			return nil, err
+	for w := range parts {
+		if errs[w] != nil {
+			return nil, errs[w]
 		}
-		ev.Res = json.RawMessage(out)
-		events = append(events, ev)
+		events = append(events, parts[w]...)
 	}
 	// demonstration of the binding (DESIGN 5.4): a recorded observation with one corrupted field must be rejected
 	corrupt := *events[0]
